@@ -94,6 +94,7 @@ def iter_episode(spec, uid="E", shared=None, events=None):
     reals = shared if shared is not None else {}
     logged = set()
     dobjs = {}
+    shared_parser = PumlParser()
     try:
         world = World(spec["world"]["modules"], spec["world"]["imports"]) if spec.get("world") else None
 
@@ -117,7 +118,8 @@ def iter_episode(spec, uid="E", shared=None, events=None):
                 with open(path, "w") as f:
                     f.write(text)
                 try:
-                    parsed = PumlParser().parse(Path(path))
+                    # one parser object serves every diagram of the episode (a parse must not depend on earlier ones)
+                    parsed = (shared_parser if n % 4 else PumlParser()).parse(Path(path))
                     out = "ok"
                     comps = sorted(c.split(".") for c in parsed.all_modules)
                     deps = sorted([a.split("."), b.split(".")] for a, bs in parsed.dependencies.items() for b in bs)
